@@ -33,8 +33,10 @@ RULE = (
     "get_closest_param. Line / Circle (rim perpendicular to a non-unit normal, full or clipped "
     "bounds) / helix / twisted-cubic analytic curves in random frames, the user function of the last two written in one of "
     "three styles (numpy component expressions that also accept parameter arrays, math.* scalars only, row of a vectorised "
-    "function); discretisation counts and edge point numbers favour small values (2-5, 1-3). Parameters are drawn uniformly, at the bounds and "
-    "at the parameters of defining points, in either order. Queries are a curve point plus an offset of <= 5 % of the "
+    "function); discretisation counts and edge point numbers favour small values (2-5, 1-3). Parameters are drawn uniformly, at the bounds, at the "
+    "parameters of defining points and - where the bounds start below zero, which is common for analytic curves - as an "
+    "explicit 0 (int) or 0.0 (float), in either order; an enumerated grid (4 analytic kinds x 3 bounds around zero x 0 / "
+    "0.0 as from / to) is always run. Queries are a curve point plus an offset of <= 5 % of the "
     "local point spacing (near) or 0.5-3 curve lengths (far, counted only). References are written in the harness: "
     "chord-length / uniform break parameters, linear interpolation, closed-form analytic curves, dense sampling (>= 801 "
     "parameters, refined until neighbouring samples are <= 1/1500 of the curve length apart) with golden-section "
@@ -233,7 +235,7 @@ def analytic_curve(draw, kinds=("line", "circle", "helix", "cubic")):
     kind = draw(st.sampled_from(list(kinds)))
     spec = {"type": kind, "frame": draw(frame()), "scale": draw(_scale)}
     if kind == "line":
-        lo = draw(st.sampled_from([0.0, 0.0, -0.5, 0.25]))
+        lo = draw(st.sampled_from([0.0, -0.5, -0.5, 0.25, -1.0]))
         spec["bounds"] = [lo, lo + draw(st.sampled_from([1.0, 1.0, 0.5, 2.5]))]
     elif kind == "circle":
         if draw(st.booleans()):
@@ -243,7 +245,8 @@ def analytic_curve(draw, kinds=("line", "circle", "helix", "cubic")):
             spec["bounds"] = [lo, lo + draw(st.floats(0.5, TWO_PI))]
         spec["normal_length"] = draw(st.sampled_from([1.0, 0.2, 7.0]))
     elif kind == "helix":
-        spec["bounds"] = [0.0, draw(st.floats(1.0, 2 * TWO_PI))]
+        lo = draw(st.sampled_from([0.0, 0.0, -2.0, -0.5]))
+        spec["bounds"] = [lo, lo + draw(st.floats(1.0, 2 * TWO_PI))]
         # more than one turn must not overlap itself: the pitch stays away from 0
         spec["pitch"] = draw(st.floats(0.05, 1.0)) * draw(st.sampled_from([1.0, -1.0]))
     else:
@@ -287,6 +290,9 @@ def param(draw, spec):
     options = [st.floats(0.0, 1.0).map(lambda f: min(b1, max(b0, b0 + f * (b1 - b0)))), st.sampled_from([b0, b1])]
     if brk:
         options.append(st.sampled_from(brk))
+    if b0 < 0 <= b1:
+        # an explicit parameter of exactly zero (int and float) is a value like any other, not "use the bound"
+        options.append(st.sampled_from([0, 0.0]))
     return draw(st.one_of(options))
 
 
@@ -1111,10 +1117,36 @@ def check_edge(case, ctx: Ctx) -> None:
 
 # --------------------------------------------------------------------------------------------------
 
+def _zero_grid():
+    """curve kind x bounds around zero x an explicit parameter of exactly 0 (int) / 0.0 (float) as `from` and as `to`"""
+    fr = {"axis": [1.0, 2.0, 3.0], "angle": 0.7, "origin": [0.3, -0.2, 0.1]}
+    curves = []
+    for bounds in ([-0.5, 0.5], [-1.0, 0.0], [-0.75, 1.75]):
+        curves += [
+            {"type": "line", "frame": fr, "scale": 2.0, "bounds": bounds},
+            {"type": "circle", "frame": fr, "scale": 2.0, "bounds": bounds, "normal_length": 0.2},
+            {"type": "helix", "frame": fr, "scale": 2.0, "bounds": bounds, "pitch": 0.4, "style": "components"},
+            {"type": "cubic", "frame": fr, "scale": 2.0, "bounds": bounds, "coef": [1.0, -1.5, 0.7], "style": "scalar"},
+        ]
+    ends, lengths = [], []
+    for spec in curves:
+        b0, b1 = spec["bounds"]
+        other = b1 if b1 != 0 else b0
+        for zero in (0, 0.0):
+            for pair in ([zero, other], [other, zero], [zero, b0], [b0, zero]):
+                if pair[0] == pair[1]:
+                    continue
+                ends.append({"curve": spec, "params": pair, "count": 4, "none": [False, False]})
+                lengths.append({"curve": spec, "params": [*pair, 0.5 * (pair[0] + pair[1])]})
+    return ends, lengths
+
+
+_ZERO_ENDS, _ZERO_LENGTHS = _zero_grid()
+
 CELLS = [
     Cell("C16/ends", ends_case(), check_ends, 1500, 25000,
          "all six curve types: discretize(a, b[, count]) starts at get_point(a) and ends at get_point(b), either order, "
-         "None = bound"),
+         "None = bound; fixed grid: analytic kinds x bounds around 0 x explicit parameter 0 / 0.0 as from / to", _ZERO_ENDS),
     Cell("C16/through-points", point_curve(("linear", "spline")).map(lambda s: {"curve": s}), check_through, 800, 12000,
          "interpolated curves reproduce every defining point at the harness' own chord-length / uniform parameter"),
     Cell("C16/length/discrete", length_discrete_case(), check_length_discrete, 800, 12000,
@@ -1125,7 +1157,8 @@ CELLS = [
     Cell("C16/length/spline", curve_and_params(point_curve(("spline",)), k=3), check_length_spline, 750, 12000,
          "SplineInterpolatedCurve: symmetric; len(a,b) <= len(a,m)+len(m,b) <= dense arc length; >= chord"),
     Cell("C16/length/analytic", curve_and_params(analytic_curve(), k=3), check_length_analytic, 900, 15000,
-         "Line: exact and additive; circle / helix / cubic: symmetric, two-sided bound, additive to 2e-3"),
+         "Line: exact and additive; circle / helix / cubic: symmetric, two-sided bound, additive to 2e-3; fixed grid as in "
+         "C16/ends", _ZERO_LENGTHS),
     Cell("C16/closest/discrete", closest_case(point_curve(("discrete",))), check_closest_discrete, 800, 12000,
          "DiscreteCurve: returned index is a nearest point (near queries; far counted)"),
     Cell("C16/closest/interpolated", closest_case(st.one_of(point_curve(("linear", "spline")), point_curve(("linear", "spline")), detail_curve())),
